@@ -10,6 +10,8 @@ prune message itself is counted inside the window.
   requeued-again        a message was re-queued a second time inside the window
   prune-requeued-twice  the same prune-leave was re-queued on its 1st and 2nd delivery (the member
                         it erased is unknown the second time)            — recorded finding
+  requeued-not-recorded a message was re-queued although the node did not record its time (status time of the
+                        member, or the buffered intent) — the next copy would be re-queued again
   merge-requeues        a state-sync merge queued something other than a refuting join of the local node
 -/
 namespace SerfModel.Check.C04
@@ -62,6 +64,18 @@ def step (s : St) (f : List String) (impl : String) : LineOut St :=
             else (c, none)
           else (c1, none)
         | none => (c1, none)
+      -- a re-queued message must be recorded (that is what stops the next copy), unless it is the prune that erased the member
+      let recorded : Option (String × String) := match delivered with
+        | some m =>
+          let cov := match o.ltimeOf m.node with
+            | some t => decide (m.ltime ≤ t)
+            | none => match o.intents.find? (·.1 == m.node) with
+              | some i => decide (m.ltime ≤ i.2.2)
+              | none => false
+          if o.queue.contains m && !cov && !(m.isPrune && prev.knows m.node && !o.knows m.node) then
+            some ("requeued-not-recorded", s!"message {Msg.str m} was re-queued but the node recorded no time ≥ {m.ltime} for {m.node}: the next copy will be re-queued again")
+          else none
+        | none => none
       let mergeV : Option (String × String) := match h with
         | .ops [.merge ..] =>
           if o.queue.any (fun m => match m with | .join x _ => !(x == selfName) | _ => true) then
@@ -69,7 +83,7 @@ def step (s : St) (f : List String) (impl : String) : LineOut St :=
           else none
         | _ => none
       { state := { base := { node := n', prev := o }, counts := c2 }, model := some out,
-        monitor := firstSome [verdict, mergeV] }
+        monitor := firstSome [verdict, recorded, mergeV] }
 
 def checker : Checker := { σ := St, init := {}, step := step }
 
